@@ -842,24 +842,22 @@ Proof. intro H. injection H. auto. Qed.
 Lemma synth_cases a_as a b s d :
   synth_get_page a_as a = Some (b, s, d) ->
   a < W /\
-  ((((a < 0x10000 \/ TOP <= a) /\ (a / 0x1000) mod 8 <> 5 /\
-     b = a / 0x1000 * 0x1000 /\ s = 0x1000 /\ d = synth_bytes (synth_byte a_as b) (N.to_nat 0x1000))) \/
-   ((0x10000 <= a /\ a < TOP) /\ (a / 0x100) mod 8 <> 3 /\
+  (((a / 0x8000) mod 2 = 0 /\ (a / 0x1000) mod 8 <> 5 /\
+     b = a / 0x1000 * 0x1000 /\ s = 0x1000 /\ d = synth_bytes (synth_byte a_as b) (N.to_nat 0x1000)) \/
+   ((a / 0x8000) mod 2 <> 0 /\ (a / 0x100) mod 8 <> 3 /\
      b = a / 0x100 * 0x100 /\ s = 0x100 /\ d = synth_bytes (synth_byte a_as b) (N.to_nat 0x100))).
 Proof.
   unfold synth_get_page.
   destruct (W <=? a) eqn:EW; [discriminate|]. apply N.leb_gt in EW.
-  destruct ((a <? 0x10000) || (TOP <=? a)) eqn:EC.
+  destruct ((a / 0x8000) mod 2 =? 0) eqn:EC.
   - destruct ((a / 0x1000) mod 8 =? 5) eqn:EB; [discriminate|].
     intro H. apply some_triple_inj in H as [Hb [Hs Hd]]. subst b s d. split; [exact EW|]. left.
-    apply N.eqb_neq in EB. apply orb_true_iff in EC.
-    split; [|split; [exact EB|split; [reflexivity|split; reflexivity]]].
-    destruct EC as [EC|EC]; [left; now apply N.ltb_lt|right; now apply N.leb_le].
+    apply N.eqb_neq in EB. apply N.eqb_eq in EC.
+    split; [exact EC|split; [exact EB|split; [reflexivity|split; reflexivity]]].
   - destruct ((a / 0x100) mod 8 =? 3) eqn:EB; [discriminate|].
     intro H. apply some_triple_inj in H as [Hb [Hs Hd]]. subst b s d. split; [exact EW|]. right.
-    apply N.eqb_neq in EB. apply orb_false_iff in EC as [E1 E2].
-    apply N.ltb_ge in E1. apply N.leb_gt in E2.
-    split; [split; assumption|split; [exact EB|split; [reflexivity|split; reflexivity]]].
+    apply N.eqb_neq in EB. apply N.eqb_neq in EC.
+    split; [exact EC|split; [exact EB|split; [reflexivity|split; reflexivity]]].
 Qed.
 
 Lemma synth_gp_ok a_as a b s d :
@@ -867,7 +865,7 @@ Lemma synth_gp_ok a_as a b s d :
   b <= a < b + s /\ N.of_nat (length d) = s /\ b + s <= W.
 Proof.
   intro H. apply synth_cases in H as [Ha [[Hc [Hb [Eb [Es Ed]]]]|[Hc [Hb [Eb [Es Ed]]]]]];
-    subst s d; rewrite synth_bytes_length, N2Nat.id; rewrite W_val in *; unfold TOP in *;
+    subst s d; rewrite synth_bytes_length, N2Nat.id; rewrite W_val in *;
     (split; [lia|split; [reflexivity|lia]]).
 Qed.
 
@@ -878,19 +876,17 @@ Proof.
   intros H Hr. pose proof (synth_gp_ok _ _ _ _ _ H) as [_ [_ Hw]].
   apply synth_cases in H as [Ha [[Hc [Hb [Eb [Es Ed]]]]|[Hc [Hb [Eb [Es Ed]]]]]].
   - assert (Hd : a' / 0x1000 = a / 0x1000) by (subst b s; lia).
-    assert (Hc' : a' < 0x10000 \/ TOP <= a') by (unfold TOP in *; subst b s; lia).
+    assert (Hc' : (a' / 0x8000) mod 2 = 0) by (subst b s; lia).
     unfold synth_get_page.
     assert (EW : (W <=? a') = false) by (apply N.leb_gt; lia). rewrite EW.
-    assert (EC : ((a' <? 0x10000) || (TOP <=? a')) = true).
-    { apply orb_true_iff. destruct Hc' as [Hc'|Hc']; [left; now apply N.ltb_lt|right; now apply N.leb_le]. }
-    rewrite EC, Hd. apply N.eqb_neq in Hb. rewrite Hb. subst b s d. reflexivity.
+    apply N.eqb_eq in Hc'. rewrite Hc', Hd. apply N.eqb_neq in Hb. rewrite Hb.
+    subst b s d. reflexivity.
   - assert (Hd : a' / 0x100 = a / 0x100) by (subst b s; lia).
-    assert (Hc' : 0x10000 <= a' /\ a' < TOP) by (unfold TOP in *; subst b s; lia).
+    assert (Hc' : (a' / 0x8000) mod 2 <> 0) by (subst b s; lia).
     unfold synth_get_page.
     assert (EW : (W <=? a') = false) by (apply N.leb_gt; lia). rewrite EW.
-    assert (EC : ((a' <? 0x10000) || (TOP <=? a')) = false).
-    { apply orb_false_iff. split; [apply N.ltb_ge|apply N.leb_gt]; lia. }
-    rewrite EC, Hd. apply N.eqb_neq in Hb. rewrite Hb. subst b s d. reflexivity.
+    apply N.eqb_neq in Hc'. rewrite Hc', Hd. apply N.eqb_neq in Hb. rewrite Hb.
+    subst b s d. reflexivity.
 Qed.
 
 (** * Part 5 continued: re-entrant callbacks *)
@@ -1109,47 +1105,48 @@ Definition run_digest (ops : list op) :=
    cache_digest (final synth_get_page init_cache ops), map ev_digest ev).
 
 (** non-vacuity of the hypotheses and a non-trivial non-re-entrant history:
-    five pages through four slots (one put), a failing address, a bury *)
+    five pages through four slots (one put), a failing address, the last
+    region of the address space, a bury *)
 Example readcache_nonvacuous :
   (forall a_as a b s d, synth_get_page a_as a = Some (b, s, d) ->
      b <= a < b + s /\ N.of_nat (length d) = s /\ b + s <= W) /\
-  run_digest [OGet 0 0x1008 []; OGet 0 0x2000 []; OGet 1 0x20010 []; OGet 0 0x5000 [];
-              OGet 0 0xfffffffffffffff8 []; OBury 1 0x20020; OGet 0 0x3000 []; OGet 0 0x1ff8 []] =
+  run_digest [OGet 0 0x1008 []; OGet 0 0x2000 []; OGet 1 0x28010 []; OGet 0 0x5000 [];
+              OGet 0 0xfffffffffffffff8 []; OBury 1 0x28020; OGet 0 0x3000 []; OGet 0 0x1ff8 []] =
   ([Some (GOk I3); Some (GOk I2); Some (GOk I1); Some GFail; Some (GOk I0); None;
     Some (GOk I1); Some (GOk I3)],
    [(I3, (0, 0x1000, 0x1000, 2)); (I1, (0, 0x3000, 0x1000, 2));
-    (I0, (0, 0xfffffffffffff000, 0x1000, 2)); (I2, (0, 0x2000, 0x1000, 2))],
-   [DGot (0, 0x1000, 0x1000, 2); DGot (0, 0x2000, 0x1000, 2); DGot (1, 0x20000, 0x100, 5);
-    DGot (0, 0xfffffffffffff000, 0x1000, 2); DPut (1, 0x20000, 0x100, 5);
+    (I0, (0, 0xffffffffffffff00, 0x100, 252)); (I2, (0, 0x2000, 0x1000, 2))],
+   [DGot (0, 0x1000, 0x1000, 2); DGot (0, 0x2000, 0x1000, 2); DGot (1, 0x28000, 0x100, 19);
+    DGot (0, 0xffffffffffffff00, 0x100, 252); DPut (1, 0x28000, 0x100, 19);
     DGot (0, 0x3000, 0x1000, 2)]).
 Proof. split; [exact synth_gp_ok|vm_compute; reflexivity]. Qed.
 
 (** the recursion guard with a FRESH slot ([oldsize = 0]): the stale range is
     empty, the nested call misses and takes [mru->prev] -- which is still the
-    slot in progress.  It fills it with its own page (0x30000) and returns OK;
-    then the outer callback stores its page (0x20000) over it.  The nested
+    slot in progress.  It fills it with its own page (0x38000) and returns OK;
+    then the outer callback stores its page (0x28000) over it.  The nested
     page is never put (no [DPut]) and is in no slot: it is lost. *)
 Example readcache_recursion_fresh_slot :
-  run_digest [OGet 0 0x20000 [OGet 0 0x30000 []]] =
+  run_digest [OGet 0 0x28000 [OGet 0 0x38000 []]] =
   ([Some (GOk I3)],
-   [(I3, (0, 0x20000, 0x100, 2)); (I0, (0, 0, 0, 0)); (I1, (0, 0, 0, 0)); (I2, (0, 0, 0, 0))],
-   [DGot (0, 0x30000, 0x100, 2); DRetG (GOk I3); DGot (0, 0x20000, 0x100, 2)]).
+   [(I3, (0, 0x28000, 0x100, 16)); (I0, (0, 0, 0, 0)); (I1, (0, 0, 0, 0)); (I2, (0, 0, 0, 0))],
+   [DGot (0, 0x38000, 0x100, 23); DRetG (GOk I3); DGot (0, 0x28000, 0x100, 16)]).
 Proof. vm_compute. reflexivity. Qed.
 
 (** the same with a warm cache (old page 0x1000 of size 0x1000 in the victim
-    slot, outer request 0x20010): nested calls to 0x20020 (same region: a
-    true recursion), to 0x21000 (another region, but inside the stale range
-    [0x20010, 0x21010)) and to 0x20010 all answer "recursion"; nothing else
+    slot, outer request 0x28010): nested calls to 0x28020 (same region: a
+    true recursion), to 0x29000 (another region, but inside the stale range
+    [0x28010, 0x29010)) and to 0x28010 all answer "recursion"; nothing else
     happens *)
 Example readcache_recursion_stale_range :
   run_digest [OGet 0 0x1000 []; OGet 0 0x2000 []; OGet 0 0x3000 []; OGet 0 0x4000 [];
-              OGet 0 0x20010 [OGet 0 0x20020 []; OGet 0 0x21000 []; OGet 0 0x20010 []]] =
+              OGet 0 0x28010 [OGet 0 0x28020 []; OGet 0 0x29000 []; OGet 0 0x28010 []]] =
   ([Some (GOk I3); Some (GOk I2); Some (GOk I1); Some (GOk I0); Some (GOk I3)],
-   [(I3, (0, 0x20000, 0x100, 2)); (I0, (0, 0x4000, 0x1000, 2));
+   [(I3, (0, 0x28000, 0x100, 16)); (I0, (0, 0x4000, 0x1000, 2));
     (I1, (0, 0x3000, 0x1000, 2)); (I2, (0, 0x2000, 0x1000, 2))],
    [DGot (0, 0x1000, 0x1000, 2); DGot (0, 0x2000, 0x1000, 2); DGot (0, 0x3000, 0x1000, 2);
     DGot (0, 0x4000, 0x1000, 2); DPut (0, 0x1000, 0x1000, 2);
-    DRetG GRecursion; DRetG GRecursion; DRetG GRecursion; DGot (0, 0x20000, 0x100, 2)]).
+    DRetG GRecursion; DRetG GRecursion; DRetG GRecursion; DGot (0, 0x28000, 0x100, 16)]).
 Proof. vm_compute. reflexivity. Qed.
 
 (** re-entrant histories are NOT transparent in general: a callback for
@@ -1177,4 +1174,226 @@ Theorem readcache_reentrant_leak :
 Proof.
   exists [OGet 0 0x20000 [OGet 0 0x30000 []]], (fun _ => 1%nat).
   vm_compute. discriminate.
+Qed.
+
+(** * Part 7: a slot answers exactly for its own region -- and would not if
+    the in-buffer offset were computed in fewer than 64 bits *)
+
+(** [s] is responsible for address [a] of space [a_as] *)
+Definition owns (s : slot) (a_as a : N) : Prop :=
+  a_as = as_ s /\ addr s <= a < addr s + size s.
+
+(** ** the hit test of the code, for ALL 64-bit addresses: a slot whose
+    region does not wrap answers for the addresses of its own region in its own
+    address space and for no other address *)
+Theorem readcache_hit_exact : forall s a_as a,
+  addr s + size s <= W -> a < W ->
+  (hit_test s a_as a = true <-> a_as = as_ s /\ addr s <= a < addr s + size s).
+Proof.
+  intros s a_as a Hw Ha. unfold hit_test. rewrite andb_true_iff, N.ltb_lt, N.eqb_eq.
+  destruct (N.eq_dec (size s) 0) as [Hz|Hz].
+  - rewrite Hz. split; [intros [H _]; lia|intros [_ H]; lia].
+  - assert (Hb : addr s < W) by lia.
+    destruct (N.lt_ge_cases a (addr s)) as [Hlt|Hge].
+    + rewrite wsub_wrap by assumption. split; [intros [H _]; lia|intros [_ H]; lia].
+    + rewrite wsub_le by assumption.
+      split; [intros [H E]; split; [now symmetry|lia]|intros [E H]; split; [lia|now symmetry]].
+Qed.
+
+(** the invariant's slots do not wrap *)
+Lemma slot_ok_nowrap get_page :
+  (forall a_as a b s d, get_page a_as a = Some (b, s, d) ->
+     b <= a < b + s /\ N.of_nat (length d) = s /\ b + s <= W) ->
+  forall s, slot_ok get_page s -> addr s + size s <= W.
+Proof.
+  intros gp_ok s [Ha [Hz|[d [_ Hg]]]]; [rewrite Hz; lia|].
+  now destruct (gp_ok _ _ _ _ _ Hg) as [_ [_ Hw]].
+Qed.
+
+Definition nowrap (c : cache) : Prop :=
+  forall i, addr (get_slot c i) + size (get_slot c i) <= W.
+
+Lemma hit_false_iff s a_as a :
+  addr s + size s <= W -> a < W -> (hit_test s a_as a = false <-> ~ owns s a_as a).
+Proof.
+  intros Hw Ha. pose proof (readcache_hit_exact s a_as a Hw Ha) as H. unfold owns.
+  destruct (hit_test s a_as a); split; intro G; try discriminate; try reflexivity.
+  - exfalso. apply G. now apply H.
+  - intro O. apply H in O. discriminate.
+Qed.
+
+(** ** the scan of [get_cache_buf] and [bury_cache_buffer]: the slot found is
+    the first one responsible for the address; none is found iff no slot is
+    responsible, and then [get_cache_buf] misses and [bury] does nothing;
+    [bury] moves only a slot that is responsible for the address *)
+Theorem readcache_find_slot_exact : forall c a_as a,
+  nowrap c -> a < W ->
+  (forall i, find_slot c a_as a = Some i ->
+     owns (get_slot c i) a_as a /\
+     forall j, ix_to_N j < ix_to_N i -> ~ owns (get_slot c j) a_as a) /\
+  (find_slot c a_as a = None <-> forall i, ~ owns (get_slot c i) a_as a) /\
+  ((forall i, ~ owns (get_slot c i) a_as a) -> bury c a_as a = c) /\
+  (forall i, find_slot c a_as a = Some i ->
+     bury c a_as a = {| slots := slots c; rg := bury_ring (rg c) i |}).
+Proof.
+  intros c a_as a Hnw Ha.
+  assert (Hf : forall i, hit_test (get_slot c i) a_as a = false <-> ~ owns (get_slot c i) a_as a)
+    by (intro i; apply hit_false_iff; [apply Hnw|exact Ha]).
+  assert (Ht : forall i, hit_test (get_slot c i) a_as a = true -> owns (get_slot c i) a_as a)
+    by (intros i H; apply (readcache_hit_exact _ _ _ (Hnw i) Ha); exact H).
+  assert (Hnone : find_slot c a_as a = None <-> forall i, ~ owns (get_slot c i) a_as a).
+  { split.
+    - intros H i. apply Hf. revert H i. unfold find_slot.
+      destruct (hit_test (get_slot c I0) a_as a) eqn:H0; [discriminate|].
+      destruct (hit_test (get_slot c I1) a_as a) eqn:H1; [discriminate|].
+      destruct (hit_test (get_slot c I2) a_as a) eqn:H2; [discriminate|].
+      destruct (hit_test (get_slot c I3) a_as a) eqn:H3; [discriminate|].
+      intros _ i. destruct i; assumption.
+    - intro H. unfold find_slot.
+      rewrite (proj2 (Hf I0) (H I0)), (proj2 (Hf I1) (H I1)),
+              (proj2 (Hf I2) (H I2)), (proj2 (Hf I3) (H I3)). reflexivity. }
+  split; [|split; [exact Hnone|split]].
+  - intros i. unfold find_slot.
+    destruct (hit_test (get_slot c I0) a_as a) eqn:H0;
+      [intro E; inversion E; subst i; split; [now apply Ht|intros j Hj; destruct j; cbn in Hj; lia]|].
+    destruct (hit_test (get_slot c I1) a_as a) eqn:H1;
+      [intro E; inversion E; subst i; split; [now apply Ht|
+        intros j Hj; destruct j; cbn in Hj; try lia; now apply Hf]|].
+    destruct (hit_test (get_slot c I2) a_as a) eqn:H2;
+      [intro E; inversion E; subst i; split; [now apply Ht|
+        intros j Hj; destruct j; cbn in Hj; try lia; now apply Hf]|].
+    destruct (hit_test (get_slot c I3) a_as a) eqn:H3;
+      [intro E; inversion E; subst i; split; [now apply Ht|
+        intros j Hj; destruct j; cbn in Hj; try lia; now apply Hf]|].
+    discriminate.
+  - intro H. unfold bury. now rewrite (proj2 Hnone H).
+  - intros i H. unfold bury. now rewrite H.
+Qed.
+
+(** ** the [off_bits] family at 64 bits is the code *)
+
+Lemma pow64 : 2 ^ 64 = W.
+Proof. rewrite W_val. reflexivity. Qed.
+
+Lemma buf_offset_64 s a : buf_offset 64 s a = wsub a (addr s).
+Proof. unfold buf_offset. rewrite pow64. apply N.mod_small. apply wsub_lt. Qed.
+
+Lemma hit_test_w_64 s a_as a : hit_test_w 64 s a_as a = hit_test s a_as a.
+Proof. unfold hit_test_w, hit_test. now rewrite buf_offset_64. Qed.
+
+Lemma find_slot_w_64 c a_as a : find_slot_w 64 c a_as a = find_slot c a_as a.
+Proof. unfold find_slot_w, find_slot. now rewrite !hit_test_w_64. Qed.
+
+Lemma read_slot_w_64 s a n : read_slot_w 64 s a n = read_slot s a n.
+Proof. unfold read_slot_w, read_slot. now rewrite buf_offset_64. Qed.
+
+Section OpInd.
+Variable P : op -> Prop.
+Hypothesis HG : forall a_as a l, Forall P l -> P (OGet a_as a l).
+Hypothesis HR : forall a_as a n l, Forall P l -> P (ORead a_as a n l).
+Hypothesis HB : forall a_as a, P (OBury a_as a).
+
+Fixpoint op_ind_nested (o : op) : P o :=
+  match o with
+  | OGet a_as a l =>
+      HG a_as a l ((fix go (l : list op) : Forall P l :=
+                      match l with
+                      | [] => Forall_nil P
+                      | x :: l' => Forall_cons x (op_ind_nested x) (go l')
+                      end) l)
+  | ORead a_as a n l =>
+      HR a_as a n l ((fix go (l : list op) : Forall P l :=
+                        match l with
+                        | [] => Forall_nil P
+                        | x :: l' => Forall_cons x (op_ind_nested x) (go l')
+                        end) l)
+  | OBury a_as a => HB a_as a
+  end.
+End OpInd.
+
+Lemma run_op_get_w gp k c a_as a inner :
+  run_op_w gp k c (OGet a_as a inner) =
+  let '(c', ev, r) := get_cache_buf_re_w gp k (run_list_w gp k) c a_as a inner in
+  (c', ev, OutG r).
+Proof. reflexivity. Qed.
+
+Lemma run_op_read_w gp k c a_as a n inner :
+  run_op_w gp k c (ORead a_as a n inner) =
+  let '(c', ev, r) := get_cache_buf_re_w gp k (run_list_w gp k) c a_as a inner in
+  (c', ev, OutR (gres_to_rres_w k c' r a n)).
+Proof. reflexivity. Qed.
+
+Lemma run_list_w_64 gp l :
+  Forall (fun o => forall c, run_op_w gp 64 c o = run_op gp c o) l ->
+  forall c, run_list_w gp 64 c l = run_list gp c l.
+Proof.
+  induction 1 as [|o l Ho Hl IH]; intro c; [reflexivity|].
+  cbn [run_list_w run_list]. rewrite Ho.
+  destruct (run_op gp c o) as [[c1 ev1] out]. now rewrite IH.
+Qed.
+
+Lemma get_cache_buf_re_w_64 gp l c a_as a :
+  (forall c, run_list_w gp 64 c l = run_list gp c l) ->
+  get_cache_buf_re_w gp 64 (run_list_w gp 64) c a_as a l =
+  get_cache_buf_re gp (run_list gp) c a_as a l.
+Proof.
+  intro H. unfold get_cache_buf_re_w, get_cache_buf_re. rewrite find_slot_w_64.
+  destruct (find_slot c a_as a); [reflexivity|].
+  destruct (miss_begin c a_as a) as [[c1 ev1] s]. now rewrite H.
+Qed.
+
+Theorem run_op_w_64 gp o : forall c, run_op_w gp 64 c o = run_op gp c o.
+Proof.
+  induction o as [a_as a l Hl|a_as a n l Hl|a_as a] using op_ind_nested; intro c.
+  - rewrite run_op_get_w, run_op_get.
+    now rewrite (get_cache_buf_re_w_64 gp l c a_as a (run_list_w_64 gp l Hl)).
+  - rewrite run_op_read_w, run_op_read.
+    rewrite (get_cache_buf_re_w_64 gp l c a_as a (run_list_w_64 gp l Hl)).
+    destruct (get_cache_buf_re gp (run_list gp) c a_as a l) as [[c' ev] r].
+    do 2 f_equal. destruct r; cbn [gres_to_rres_w gres_to_rres]; [apply read_slot_w_64|reflexivity|reflexivity].
+  - cbn [run_op_w ReadCache.run_op]. unfold bury_w, bury. now rewrite find_slot_w_64.
+Qed.
+
+Theorem run_w_64 gp ops : forall c, run_w gp 64 c ops = run gp c ops.
+Proof.
+  induction ops as [|o ops IH]; intro c; [reflexivity|].
+  cbn [run_w run]. rewrite run_op_w_64.
+  destruct (run_op gp c o) as [[c1 ev1] out]. now rewrite IH.
+Qed.
+
+(** ** fewer than 64 bits: refuted.  (1) For EVERY width k < 64 a one-byte
+    slot at address 0 answers for address 2^k, which the code's test rejects.
+    (2) On the synthetic callback, for k = 16, 31, 32, 63: read 8 bytes at
+    0x1000, then at 0x1000 + 2^k -- the k-bit variant serves the second read
+    from the first region's slot (its bytes), the cache-less answer is
+    different, and the 64-bit code returns the cache-less answer. *)
+Definition trunc_history (k : N) : list op :=
+  [ORead 0 0x1000 8 []; ORead 0 (0x1000 + 2 ^ k) 8 []].
+
+Definition trunc_witness (k : N) : Prop :=
+  forallb flat_op (trunc_history k) = true /\ 0x1000 + 2 ^ k < W /\
+  map fst (fst (run_w synth_get_page k init_cache (trunc_history k))) =
+    [OutR (direct synth_get_page 0 0x1000 8); OutR (direct synth_get_page 0 0x1000 8)] /\
+  direct synth_get_page 0 (0x1000 + 2 ^ k) 8 <> direct synth_get_page 0 0x1000 8 /\
+  map fst (fst (run synth_get_page init_cache (trunc_history k))) =
+    [OutR (direct synth_get_page 0 0x1000 8); OutR (direct synth_get_page 0 (0x1000 + 2 ^ k) 8)].
+
+Theorem readcache_hit_truncated_refuted :
+  (forall k, k < 64 ->
+     let s := {| as_ := 0; addr := 0; size := 1; ptr := None |} in
+     2 ^ k < W /\ ~ (addr s <= 2 ^ k < addr s + size s) /\
+     hit_test_w k s 0 (2 ^ k) = true /\ hit_test s 0 (2 ^ k) = false) /\
+  Forall trunc_witness [16; 31; 32; 63].
+Proof.
+  split.
+  - intros k Hk s.
+    assert (Hlt : 2 ^ k < W) by (rewrite <- pow64; apply N.pow_lt_mono_r; lia).
+    assert (Hpos : 2 ^ k <> 0) by (apply N.pow_nonzero; lia).
+    split; [exact Hlt|]. split; [cbn [addr size s]; lia|].
+    unfold hit_test_w, hit_test, buf_offset. cbn [addr size as_ s].
+    rewrite wsub_le by lia. rewrite N.sub_0_r, N.mod_same by exact Hpos.
+    split; [reflexivity|].
+    destruct (2 ^ k <? 1) eqn:E; [apply N.ltb_lt in E; lia|reflexivity].
+  - repeat apply Forall_cons; try apply Forall_nil; unfold trunc_witness;
+      (split; [|split; [|split; [|split]]]); vm_compute; try reflexivity; discriminate.
 Qed.
